@@ -258,10 +258,19 @@ theorem Exec.newThread_post {e : Exec} (h : ActT e.threads) :
   unfold Exec.newThread; post
 macro_rules | `(tactic| post_spec) => `(tactic| ((with_reducible refine Exec.newThread_post ?_); post_leaf))
 
-theorem lazyGet_post {w : World} (h : ActT w.exec.threads) (z : Nat) :
-    Post (w.lazyGet z) (fun r => ActT r.1.exec.threads) := by
-  unfold World.lazyGet; post
-macro_rules | `(tactic| post_spec) => `(tactic| ((with_reducible refine lazyGet_post ?_ ..); post_leaf))
+theorem lazyRead_post {w : World} (h : ActT w.exec.threads) (sv : LazyVal) :
+    Post (w.lazyRead sv) (fun r => ActT r.1.exec.threads) := by
+  unfold World.lazyRead; post
+macro_rules | `(tactic| post_spec) => `(tactic| ((with_reducible refine lazyRead_post ?_ ..); post_leaf))
+
+theorem lazyInitFinish_post {w : World} (h : ActT w.exec.threads) (z id : Nat) :
+    Post (w.lazyInitFinish z id) (fun r => ActT r.1.exec.threads) := by
+  unfold World.lazyInitFinish; post
+macro_rules | `(tactic| post_spec) => `(tactic| ((with_reducible refine lazyInitFinish_post ?_ ..); post_leaf))
+
+theorem lazyStage_post {w : World} (h : ActT w.exec.threads) (c : TCtl) (z : Nat) :
+    Post (w.lazyStage c z) (fun w' => GoodT w'.exec.threads) := by
+  unfold World.lazyStage; post
 
 theorem wakerClone_post {w : World} (h : ActT w.exec.threads) (a : Nat) :
     Post (w.wakerClone a) (fun w' => ActT w'.exec.threads) := by
@@ -281,18 +290,48 @@ theorem wakeStage_post {w : World} (h : ActT w.exec.threads) (c : TCtl) (f : Nat
     Post (w.wakeStage c f b) (fun w' => GoodT w'.exec.threads) := by
   unfold World.wakeStage; post
 
-theorem finishThread_post {w : World} (h : ActT w.exec.threads) (c : TCtl) :
-    Post (w.finishThread c) (fun w' => GoodT w'.exec.threads) := by
-  unfold World.finishThread
+theorem dropPass_post {w : World} (h : ActT w.exec.threads) (c : TCtl) (base : Nat)
+    (done : World → Except Panic World)
+    (hd : ∀ w1, ActT w1.exec.threads → Post (done w1) (fun w' => GoodT w'.exec.threads)) :
+    Post (w.dropPass c base done) (fun w' => GoodT w'.exec.threads) := by
+  unfold World.dropPass
   dsimp only
   split
   · exact Post.pure _ (GoodT.of_act (dropLocals_act h))
-  all_goals post
+  · split
+    · split
+      · exact hd _ h
+      · post
+    · post
+
+theorem finishThread_post {w : World} (h : ActT w.exec.threads) (c : TCtl) :
+    Post (w.finishThread c) (fun w' => GoodT w'.exec.threads) := by
+  unfold World.finishThread
+  split
+  · exact Post.throw _
+  · refine dropPass_post h _ _ _ ?_
+    intro w1 _
+    post
 
 theorem runEpilogue_post {w : World} (h : ActT w.exec.threads) (c : TCtl) :
     Post (w.runEpilogue c) (fun w' => GoodT w'.exec.threads) := by
-  unfold World.runEpilogue; post
-  exact finishThread_post h c
+  unfold World.runEpilogue
+  dsimp only
+  split
+  · exact finishThread_post h c
+  · split
+    · post
+    · split
+      · exact Post.throw _
+      · split
+        · refine dropPass_post h _ _ _ ?_
+          intro w1 h1
+          exact Post.pure _ (GoodT.of_act h1)
+        · split
+          · refine dropPass_post h _ _ _ ?_
+            intro w1 _
+            post
+          · post
 
 theorem runOp_post {w : World} (h : ActT w.exec.threads) (c : TCtl) (op : Op) :
     Post (w.runOp c op) (fun w' => GoodT w'.exec.threads) := by
@@ -316,6 +355,7 @@ theorem runOp_post {w : World} (h : ActT w.exec.threads) (c : TCtl) (op : Op) :
       · exact Post.throw _
       · next h2 => have a := tlsGet_act (tlsGet_act h h1) h2; exact Post.pure _ (GoodT.of_act a)
   case blockOn => exact blockOnStage_post h _ _ _
+  case «lazy» => exact lazyStage_post h _ _
   case wake => exact wakeStage_post h _ _ _
   case wakeRef => exact wakeStage_post h _ _ _
   all_goals (simp only [World.runOp] <;> post)
